@@ -328,6 +328,10 @@ def check_C16(rep, fl):
     # move by exactly that amount)
     import props_policy as _pp
     _pp.check_balance(rep, fl, _pp.slfu_writers(fl.facts))
+    # "the cost reported for a victim is its charged cost": the candidates (key, cost) are read from the cost table on
+    # every call of add - a pool kept between calls reports what an entry cost before its last update (R07.3)
+    import props_store as _ps16
+    _ps16.keep_rules(rep, fl, _pp.check_C07, {"R07.3"}, rename="R16.5")
 
 
 # ----------------------------------------------------------------------------------------
